@@ -188,6 +188,11 @@ RulesTokenExchange(a, o) ==
   { <<"C15.flow.exchange.live",   (o.class = "tokens") => (Live(p) /\ HasExchange(a.rp) /\ o.sub = sess[p].sub /\ o.issuedType = "access")>>,
     <<"C15.flow.exchange.served", (Live(p) /\ HasExchange(a.rp)) => o.class = "tokens">> }
 
+\* rp.ClientCredentials on a relying party that also serves logins: none of the four clients is registered for the grant - the provider
+\* refuses - and the call leaves the relying party as it was (the next authorization URL still carries the configured scopes: C17.flow.authurl)
+RulesClientCreds(a, o) ==
+  { <<"C05.flow.clientcreds", o.class # "tokens">> }
+
 RulesDeviceStart(a, o) ==
   { <<"C16.flow.device.served", HasDevice(a.rp) => (o.class = "device" /\ o.uriOnIssuer)>>,
     <<"C16.flow.device.grant",  (o.class = "device") => HasDevice(a.rp)>> }
@@ -212,6 +217,7 @@ Rules(e) ==
     [] e.op = "Revoke"      -> RulesRevoke(e.args, e.out)
     [] e.op = "EndSession"  -> RulesEndSession(e.args, e.out)
     [] e.op = "TokenExchange" -> RulesTokenExchange(e.args, e.out)
+    [] e.op = "ClientCreds" -> RulesClientCreds(e.args, e.out)
     [] e.op = "DeviceStart" -> RulesDeviceStart(e.args, e.out)
     [] e.op = "DevicePoll"  -> RulesDevicePoll(e.args, e.out)
     [] OTHER -> {}
